@@ -259,6 +259,21 @@ impl<T: GseDecapMemory, C: CrcCalculator, MHEM: MandatoryHeaderExtensionManager>
         }
     }
 
+    /// A rejected start packet still means that the sender has begun another PDU on this fragment id:
+    /// the reassembly in progress on that id (if any) is abandoned and its storage given back, so that the
+    /// following fragments of the new PDU can not be appended to the old one.
+    fn reject_start_packet(
+        &mut self,
+        frag_id: u8,
+        error: DecapError,
+        consumed_len: usize,
+    ) -> (DecapError, usize) {
+        match self.memory.take_frag(frag_id) {
+            Ok((_, storage)) => self.reject_and_give_back(storage, error, consumed_len),
+            Err(_) => (error, consumed_len),
+        }
+    }
+
     /// GSE decapsulation of the payload from a buffer
     ///
     /// The function decap reads the buffer to extract a packet.
@@ -619,7 +634,7 @@ impl<T: GseDecapMemory, C: CrcCalculator, MHEM: MandatoryHeaderExtensionManager>
 
         if label == Label::SixBytesLabel([0, 0, 0, 0, 0, 0]) {
             self.last_label = None;
-            return Err((DecapError::ErrorInvalidLabel, pkt_len));
+            return Err(self.reject_start_packet(frag_id, DecapError::ErrorInvalidLabel, pkt_len));
         }
 
         // update last label
@@ -628,15 +643,27 @@ impl<T: GseDecapMemory, C: CrcCalculator, MHEM: MandatoryHeaderExtensionManager>
             LabelType::ReUse => match self.last_label {
                 Some(Label::Broadcast) => {
                     self.last_label = None;
-                    return Err((DecapError::ErrorLabelBroadcastSaved, pkt_len));
+                    return Err(self.reject_start_packet(
+                        frag_id,
+                        DecapError::ErrorLabelBroadcastSaved,
+                        pkt_len,
+                    ));
                 }
                 Some(Label::ReUse) => {
                     self.last_label = None;
-                    return Err((DecapError::ErrorLabelReUseSaved, pkt_len));
+                    return Err(self.reject_start_packet(
+                        frag_id,
+                        DecapError::ErrorLabelReUseSaved,
+                        pkt_len,
+                    ));
                 }
                 None => {
                     self.last_label = None;
-                    return Err((DecapError::ErrorNoLabelSaved, pkt_len));
+                    return Err(self.reject_start_packet(
+                        frag_id,
+                        DecapError::ErrorNoLabelSaved,
+                        pkt_len,
+                    ));
                 }
                 _ => self.last_label.unwrap(),
             },
@@ -661,11 +688,19 @@ impl<T: GseDecapMemory, C: CrcCalculator, MHEM: MandatoryHeaderExtensionManager>
                 Err(e) => match e {
                     ExtensionHeaderError::BufferTooSmall => {
                         self.last_label = None;
-                        return Err((DecapError::ErrorSizePduBuffer, buffer_len));
+                        return Err(self.reject_start_packet(
+                            frag_id,
+                            DecapError::ErrorSizePduBuffer,
+                            buffer_len,
+                        ));
                     }
                     ExtensionHeaderError::UnknownMandatoryHeader => {
                         self.last_label = None;
-                        return Err((DecapError::ErrorUnkownMandatoryHeader, pkt_len));
+                        return Err(self.reject_start_packet(
+                            frag_id,
+                            DecapError::ErrorUnkownMandatoryHeader,
+                            pkt_len,
+                        ));
                     }
                 },
                 Ok(r) => {
@@ -681,7 +716,7 @@ impl<T: GseDecapMemory, C: CrcCalculator, MHEM: MandatoryHeaderExtensionManager>
         // check the total len
         if total_len <= calculed_pdu_len as u16 {
             self.last_label = None;
-            return Err((DecapError::ErrorTotalLength, buffer_len));
+            return Err(self.reject_start_packet(frag_id, DecapError::ErrorTotalLength, buffer_len));
         }
 
         // create a new decap context
